@@ -59,6 +59,29 @@ func Laws(c *vk.Ctx) {
 			}
 		}
 	}
+	// every other field of a node's identity, one at a time (the last tie-break must see all of them)
+	for _, name := range []string{"a", "b"} {
+		for v := 0; v < 6; v++ {
+			for _, fc := range [][2]int64{{5, 5}, {3, 7}} {
+				n := mk(name, 0x10)
+				n.Info.File = "f.go"
+				switch v {
+				case 1:
+					n.Info.Objfile = "/lib/other.so"
+				case 2:
+					n.Info.Lineno = 7
+				case 3:
+					n.Info.StartLine = 3
+				case 4:
+					n.Info.OrigName = name + "_sys"
+				case 5:
+					n.Info.Columnno = 2
+				}
+				n.Flat, n.Cum = fc[0], fc[1]
+				ns = append(ns, n)
+			}
+		}
+	}
 	for _, o := range graph.VerifNodeOrders {
 		o := o
 		less := func(i, j int) bool {
